@@ -1,5 +1,6 @@
 import PdfModel.Lemmas.Offsets
 import PdfModel.Lemmas.OffLex
+import PdfModel.Lemmas.OffsetsFuel
 
 /-!
 # C17 — bytes before the header do not change what is read
@@ -192,6 +193,32 @@ theorem open_prefix_invariant (P : Parsers V T) (p f : Bytes) (fuel s : Nat) (t 
   | err => simp [hs] at hopen
   | panic => simp [hs] at hopen
   | oof => simp [hs] at hopen
+
+/-- **Fuel is adequate.** The `/Prev` loop of the model cannot run out of fuel once `fuel ≥ len + 2`
+    (the code's `seen` list is duplicate-free and only holds offsets that could be read), for parsers
+    that — like the Rust functions they stand for — have no fuel of their own. -/
+theorem load_never_out_of_fuel (P : Parsers V T) (hP : NoOof P) (buf : Bytes) (start fuel : Nat)
+    (hf : buf.length + 2 ≤ fuel) : loadTable P fuel buf start ≠ .oof :=
+  loadTable_ne_oof P hP buf start fuel hf
+
+/-- `open_prefix_invariant` with each side running on its own natural fuel `len + 2`. -/
+theorem open_prefix_invariant_natural_fuel (P : Parsers V T) (p f : Bytes) (s : Nat) (t : Xref.Table) (tr : T)
+    (hopen : openFile P (f.length + 2) f = .ok (s, t, tr))
+    (hno : ∀ j, j < p.length → ¬ headerMarker <+: (p ++ f).drop j)
+    (hl : p.length + s + 5 ≤ 1024) (hfit : Fits p f) :
+    openFile P ((p ++ f).length + 2) (p ++ f) = .ok (p.length + s, t, tr) := by
+  have h := open_prefix_invariant P p f (f.length + 2) s t tr hopen hno hl hfit
+  unfold openFile at h ⊢
+  cases hs : locateStart (p ++ f) with
+  | ok s' =>
+    simp only [hs] at h ⊢
+    have hne : loadTable P (f.length + 2) (p ++ f) s' ≠ .oof := by
+      intro hc; simp [hc] at h
+    rw [loadTable_fuel_irrelevant P (p ++ f) s' (f.length + 2) ((p ++ f).length + 2) hne (by simp)]
+    exact h
+  | err => simp [hs] at h
+  | panic => simp [hs] at h
+  | oof => simp [hs] at h
 
 /-- **C17 as one statement.** Loadable file, admissible prefix: the prefixed file loads, and every object
     number — with any flags, any fuel — every stream's raw data, the version string and the scan listing
